@@ -3,7 +3,7 @@
    the correspondence run, not verified); schema conformance of all fields is an oracle. *)
 From Coq Require Import Lia Permutation Sorted.
 From RM Require Import Gen.C15Fmt.
-From RM Require Import C15.Model C15.Schema C15.Widths C15.Utf8 C15.Pretty C15.Proofs C15.Proofs2 C15.Proofs3 C15.Proofs4 C15.Proofs5 C15.Proofs6 C15.Proofs7 C15.Scalar C15.Proofs8 C15.Proofs9 C15.Regs C15.Proofs10 C15.Consistent C15.Proofs11 C15.Proofs12 C15.Proofs13 C15.Offsets C15.Proofs14 C15.KeyOrder C15.Proofs15 C15.Proofs16 C15.Float C15.Proofs17 C15.FnOffsets C15.Proofs18 C15.FloatQ C15.Proofs19.
+From RM Require Import C15.Model C15.Schema C15.Widths C15.Utf8 C15.Pretty C15.Proofs C15.Proofs2 C15.Proofs3 C15.Proofs4 C15.Proofs5 C15.Proofs6 C15.Proofs7 C15.Scalar C15.Proofs8 C15.Proofs9 C15.Regs C15.Proofs10 C15.Consistent C15.Proofs11 C15.Proofs12 C15.Proofs13 C15.Offsets C15.Proofs14 C15.KeyOrder C15.Proofs15 C15.Proofs16 C15.Float C15.Proofs17 C15.FnOffsets C15.Proofs18 C15.FloatQ C15.Proofs19 C15.Version C15.Proofs20.
 From RM Require C19.Model.
 From Flocq Require IEEE754.Binary IEEE754.Bits.
 Open Scope Z_scope.
@@ -832,3 +832,36 @@ Theorem c15_report_confidences : forall (s : state) c b, s_crash s = Some c -> I
   conf_text_ok (flip_conf_bits b) (flip_conf_text b) = true.
 Proof. intros s c b _ _. apply flip_conf_ok. Qed.
 Print Assumptions c15_report_confidences.
+
+(* ------------------------------------------------------------------ modules[].version
+   MinidumpModule::version (minidump/src/minidump.rs) is interpreted from what translate/c15_fmt.py reads off its source on every run: the two
+   VS_FIXEDFILEINFO constants, the Os variants of the matches!, the four format! arguments of each arm.  For EVERY version_info and OS:
+   the member is null exactly when signature / struct_version differ from the constants; otherwise it is a text of decimal digits and dots
+   (hence of Unicode scalar values: the [state_scalar] clause of the member) - for Windows / Mac OS X / iOS the 16-bit halves of the file
+   version, else file / product version words.  c15_module_version_pinned (FINITE CHECK): the translated tables are the ones the arms
+   lemma was proved for; concrete texts.  The driver computes the member of every real module from the raw fields, so the byte-for-byte
+   comparison of the whole document checks it against the real code. *)
+Theorem c15_module_version : forall os v,
+  (module_version os v = None <-> ~ (vi_sig v = VERSION_SIGNATURE /\ vi_struct v = VERSION_STRUCVERSION)) /\
+  (forall t, module_version os v = Some t -> Forall ver_char t) /\
+  (0 <= vi_fhi v -> 0 <= vi_flo v -> vi_sig v = VERSION_SIGNATURE -> vi_struct v = VERSION_STRUCVERSION ->
+   module_version os v =
+   Some (if (os =? 0) || (os =? 1) || (os =? 2)
+         then dot4 (vi_fhi v / 65536) (vi_fhi v mod 65536) (vi_flo v / 65536) (vi_flo v mod 65536)
+         else dot4 (vi_fhi v) (vi_flo v) (vi_phi v) (vi_plo v))).
+Proof.
+  intros os v. split; [apply module_version_none|]. split; [intros t; apply module_version_chars|apply module_version_arms].
+Qed.
+Print Assumptions c15_module_version.
+
+Theorem c15_module_version_pinned :
+  VERSION_SIGNATURE = 4277077181 /\ VERSION_STRUCVERSION = 65536 /\ VERSION_SPLIT_OS = [1; 2; 0] /\
+  VERSION_ARM_SPLIT = [(0, 1, 16); (0, 2, 65535); (1, 1, 16); (1, 2, 65535)] /\ VERSION_ARM_ELSE = [(0, 0, 0); (1, 0, 0); (2, 0, 0); (3, 0, 0)] /\
+  module_version 0 {| vi_sig := 4277077181; vi_struct := 65536; vi_fhi := 65538; vi_flo := 4294967295; vi_phi := 7; vi_plo := 8 |}
+    = Some [49; 46; 50; 46; 54; 53; 53; 51; 53; 46; 54; 53; 53; 51; 53] /\                                 (* Windows: 1.2.65535.65535 *)
+  module_version 3 {| vi_sig := 4277077181; vi_struct := 65536; vi_fhi := 65538; vi_flo := 0; vi_phi := 7; vi_plo := 4294967295 |}
+    = Some [54; 53; 53; 51; 56; 46; 48; 46; 55; 46; 52; 50; 57; 52; 57; 54; 55; 50; 57; 53] /\              (* Linux: 65538.0.7.4294967295 *)
+  module_version 0 {| vi_sig := 0; vi_struct := 65536; vi_fhi := 1; vi_flo := 2; vi_phi := 3; vi_plo := 4 |} = None /\
+  module_version 3 {| vi_sig := 4277077181; vi_struct := 0; vi_fhi := 1; vi_flo := 2; vi_phi := 3; vi_plo := 4 |} = None.
+Proof. vm_compute. repeat split; reflexivity. Qed.
+Print Assumptions c15_module_version_pinned.
